@@ -324,6 +324,16 @@ def special_d(rng, tier):
     out.append(S.d("RR", rr_wire(64, 1, 5, b"\x00\x01\x00" + par(3, b"\x00\x50") + struct.pack(">HH", 7, 9) + b"abc")))
     out.append(S.d("RR", rr_wire(64, 1, 5, b"\x00\x01\x00" + par(1, st(b"h2") + b"\x05h3"))))
     out.append(S.d("RR", rr_wire(64, 1, 5, b"\x00\x01\x00" + par(1, st(b"h2")) + b"\x00\x03\x00")))
+    # text that is not UTF-8 in every text-bearing field (the library's documented rule: rejected, never repaired)
+    for bad in (b"\x80", b"\xff", b"caf\xc3", b"\xc3\x28", b"a\xe2\x82", b"\xed\xa0\x80", b"\xf8\x88\x80\x80\x80", b"ok\xc0\xaf"):
+        out.append(S.d("RR", rr_wire(16, 1, 5, st(b"fine") + st(bad))))
+        out.append(S.d("RR", rr_wire(13, 1, 5, st(bad) + st(b"os"))))
+        out.append(S.d("RR", rr_wire(27, 1, 5, st(b"1") + st(bad) + st(b"2"))))
+        out.append(S.d("RR", rr_wire(256, 1, 5, b"\x00\x01\x00\x02" + bad)))
+        out.append(S.d("RR", rr_wire(64, 1, 5, b"\x00\x01\x00" + par(1, st(b"h2") + st(bad)))))
+        out.append(S.d("RR", rr_wire(65, 1, 5, b"\x00\x01\x00" + par(1, st(bad)))))
+        out.append(S.d("DomainName", st(bad) + b"\x03org\x00"))
+        out.append(S.d("RR", rr_wire(2, 1, 5, st(b"ns") + st(bad) + b"\x00")))
     # `mandatory` lists as they may come from the wire: duplicated and unsorted keys (the list is kept as it is)
     for keys_ in ([1, 1], [3, 3, 4], [65280, 1, 65280], [4, 1], [1, 6, 3], [3, 1, 3, 1], [1, 1, 1, 1, 1]):
         byk = {1: par(1, st(b"h2")), 3: par(3, b"\x01\xbb"), 4: par(4, bytes([192, 0, 2, 1])), 6: par(6, bytes(15) + b"\x01"),
@@ -1750,6 +1760,11 @@ class C16(Prop):
                     body = (v + bytes(40))[:n]
                     d.append(S.d("RR", svcb_rr(64, 1, b"\x00", par(x, body))))
                 d.append(S.d("RR", svcb_rr(64, 1, b"\x00", par(x, v, (len(v) + delta) & 0xFFFF))))
+        for bad in (b"\x80", b"\xff", b"caf\xc3", b"\xc3\x28", b"\xed\xa0\x80"):
+            stb = lambda b: bytes([len(b)]) + b
+            d.append(S.d("RR", svcb_rr(64, 1, b"\x00", par(1, stb(b"h2") + stb(bad)))))
+            d.append(S.d("RR", svcb_rr(65, 1, b"\x00", par(1, stb(bad)))))
+            d.append(S.d("RR", svcb_rr(64, 1, b"\x00", par(1, stb((bad * 85)[:255])))))
         d.append(S.d("RR", svcb_rr(64, 1, b"\x00", par(5, b"\x00\x04abc"))))
         d.append(S.d("RR", svcb_rr(64, 1, b"\x00", par(1, b"\x05h2"))))
         d.append(S.d("RR", svcb_rr(64, 1, b"\x00", par(0, b"\x00\x04\x00\x01"))))
